@@ -48,6 +48,14 @@ class _Continue(Exception):
     pass
 
 
+class SymObj:
+    """An opaque object with symbolic / concrete attributes (e.g. a StateNode with a symbolic ``id``); ``==`` is identity."""
+
+    def __init__(self, name: str, **attrs: Any) -> None:
+        self.name = name
+        self.attrs = attrs
+
+
 class SymMap:
     """A dict whose keys are symbolic strings (pairwise distinct, insertion order = list order)."""
 
@@ -202,6 +210,8 @@ class Interp:
             return bool(v)
         if isinstance(v, SymMap):
             return len(v.keys) > 0
+        if isinstance(v, SymObj):
+            return True
         if z3.is_bool(v):
             return v
         if z3.is_string(v):
@@ -211,6 +221,8 @@ class Interp:
         raise Unsupported(f"truthiness of {type(v).__name__}")
 
     def eq(self, a: Any, b: Any) -> Any:
+        if isinstance(a, SymObj) or isinstance(b, SymObj):
+            return a is b
         if not _is_sym(a) and not _is_sym(b):
             return a == b
         if isinstance(a, (str,)) or isinstance(b, (str,)) or (_is_sym(a) and z3.is_string(a)):
@@ -244,6 +256,28 @@ class Interp:
             if n.id in self.glob and isinstance(self.glob[n.id], (str, int, tuple, bool)):
                 return self.glob[n.id]
             raise Unsupported(f"name {n.id}")
+        if isinstance(n, ast.Attribute):
+            base = self.expr(n.value, env)
+            if isinstance(base, SymObj) and n.attr in base.attrs:
+                return base.attrs[n.attr]
+            raise Unsupported(f"attribute .{n.attr}")
+        if isinstance(n, ast.JoinedStr):
+            parts: List[Any] = []
+            for v in n.values:
+                if isinstance(v, ast.Constant):
+                    parts.append(v.value)
+                elif isinstance(v, ast.FormattedValue) and v.conversion == -1 and v.format_spec is None:
+                    pv = self.expr(v.value, env)
+                    if not (isinstance(pv, str) or (_is_sym(pv) and z3.is_string(pv))):
+                        raise Unsupported("f-string of a non-string")
+                    parts.append(pv)
+                else:
+                    raise Unsupported("f-string conversion")
+            if all(isinstance(x, str) for x in parts):
+                return "".join(parts)
+            if len(parts) == 1:
+                return _S(parts[0])
+            return z3.Concat(*[_S(x) for x in parts])
         if isinstance(n, ast.Tuple):
             return tuple(self.expr(e, env) for e in n.elts)
         if isinstance(n, ast.List):
